@@ -84,6 +84,8 @@ Print Assumptions cssparse_lexer_tok_in_lex.
        EDecl:   ws? ident ws? ':' (ws? value-token)+ ws? ';'
        EClose:  ws? '}'
        EComment: ws? comment          EToken: ws? CDO | ws? CDC          (both at the top level only)
+       ECustom: ws? custom-property-name ws? ':' raw-token* ';'          (inside a ruleset; raw tokens include
+                whitespace and comments, no ';' '}' ')' ']' at bracket level 0 - raw_ok / raw_lv)
    that nest properly (evs_ok: declarations and '}' only inside a ruleset, everything closed at the end; rulesets may
    be nested to any depth), followed by ws?
    (ws: a Whitespace token; selector-/value-token: any token but whitespace, comment, '{', '}', ';', with brackets
@@ -101,9 +103,11 @@ Print Assumptions cssparse_lexer_tok_in_lex.
      the punctuation bytes  , / : ! =  (whitespace before the first and after the last value token, around ':' and
      ';', '{' and '}' is dropped);
    - EndRuleset; Comment with the comment as data; Token with the CDO / CDC token as data;
+   - CustomProperty with the name as data and Values() = one CustomPropertyValue token whose bytes are the
+     concatenation of the raw tokens, i.e. the exact source text between ':' and ';';
    and then the end-of-input report; no parse error is reported.
-   MISSING: at-rules, custom properties, comments inside rulesets (covered by the well-formed-stylesheet oracle
-   only). *)
+   MISSING: at-rules, custom properties outside rulesets or ended by '}', comments inside rulesets (covered by the
+   well-formed-stylesheet oracle only). *)
 Theorem cssparse_wellformed_partial : forall d evs w,
   css_lex d = LexDone (concat (map ev_toks evs) ++ optws w) -> evs_ok 0 evs ->
   exists tr, parse_run (length evs + 1) (new_parser d false) = POk tr /\
